@@ -98,7 +98,9 @@ def execute(case, ctx):
         names['HD'] = dd
         od = collections.OrderedDict([('z', 1), ('y', [2])])
         names['OD'] = od
-        extra = ['HD', 'OD']
+        import types
+        names['HO'] = types.SimpleNamespace(name='rec', items=[1, 2], _rev=7, _cache={'k': [1]})      # a host record with private fields
+        extra = ['HD', 'OD', 'HO']
     parser = boot.fresh_parser()
     table = monitors.M.functions.FUNCTIONS
     nonmut = sorted(n for n in table if n not in monitors.MUTATORS)
